@@ -34,7 +34,7 @@ from .. import gen, impl, ser
 
 ID = "C07"
 LEVEL = "proof"
-PROPS_MODULE = "SymmModel.Props.C07All3"
+PROPS_MODULE = "SymmModel.Props.C07All4"
 THEOREMS = [
     "SymmModel.C07.plan_certificate_sound",
     "SymmModel.C07.plan_certificate_size",
@@ -83,9 +83,19 @@ THEOREMS = [
     "SymmModel.C07.reshape_roundtrip_fermionic_partial",
     "SymmModel.C07.reshape_roundtrip_fermionic_sizes_partial",
     "SymmModel.C07.reshape_roundtrip_abelian_partial",
-    "SymmModel.C07.reshape_forward_elem_fermionic_partial"
+    "SymmModel.C07.reshape_forward_elem_fermionic_partial",
+    "SymmModel.C07.planner_back_plan_multi",
+    "SymmModel.C07.reshape_back_plan",
+    "SymmModel.C07.planner_no_unfuse",
+    "SymmModel.C07.applyPlan_roundtrip_fermionic",
+    "SymmModel.C07.applyPlan_roundtrip_abelian",
+    "SymmModel.C07.reshape_roundtrip_fermionic",
+    "SymmModel.C07.reshape_roundtrip_abelian",
+    "SymmModel.C07.planner_forward_plan_runs",
+    "SymmModel.C07.reshape_roundtrip_fermionic_runs",
+    "SymmModel.C07.reshape_roundtrip_abelian_runs"
 ]
-LEAN_FILES = ["SymmModel.Model.ReshapePlan", "SymmModel.Model.Reshape", "SymmModel.Driver.ReshapeH", "SymmModel.Proofs.C07", "SymmModel.Proofs.C07T4", "SymmModel.Proofs.C07T5_1", "SymmModel.Proofs.C07T5_2", "SymmModel.Proofs.C07T5_3", "SymmModel.Proofs.C07T5_4", "SymmModel.Proofs.C07T5_6", "SymmModel.Props.C07", "SymmModel.Props.C07b", "SymmModel.Props.C07All", "SymmModel.Proofs.ReshapeMore", "SymmModel.Proofs.Reshape3a", "SymmModel.Proofs.Reshape3b", "SymmModel.Proofs.Reshape3c", "SymmModel.Proofs.Reshape3d", "SymmModel.Proofs.Reshape3e", "SymmModel.Proofs.Reshape3f", "SymmModel.Proofs.Reshape3g", "SymmModel.Proofs.Reshape3h", "SymmModel.Proofs.Reshape3i", "SymmModel.Proofs.Reshape3j", "SymmModel.Props.C07c", "SymmModel.Props.C07All2", "SymmModel.Proofs.Reshape4a", "SymmModel.Proofs.Reshape4b", "SymmModel.Proofs.Reshape4c", "SymmModel.Proofs.Reshape4d", "SymmModel.Proofs.Reshape4e", "SymmModel.Proofs.Reshape4f", "SymmModel.Proofs.Reshape4g", "SymmModel.Props.C07d", "SymmModel.Props.C07All3"]
+LEAN_FILES = ["SymmModel.Model.ReshapePlan", "SymmModel.Model.Reshape", "SymmModel.Driver.ReshapeH", "SymmModel.Proofs.C07", "SymmModel.Proofs.C07T4", "SymmModel.Proofs.C07T5_1", "SymmModel.Proofs.C07T5_2", "SymmModel.Proofs.C07T5_3", "SymmModel.Proofs.C07T5_4", "SymmModel.Proofs.C07T5_6", "SymmModel.Props.C07", "SymmModel.Props.C07b", "SymmModel.Props.C07All", "SymmModel.Proofs.ReshapeMore", "SymmModel.Proofs.Reshape3a", "SymmModel.Proofs.Reshape3b", "SymmModel.Proofs.Reshape3c", "SymmModel.Proofs.Reshape3d", "SymmModel.Proofs.Reshape3e", "SymmModel.Proofs.Reshape3f", "SymmModel.Proofs.Reshape3g", "SymmModel.Proofs.Reshape3h", "SymmModel.Proofs.Reshape3i", "SymmModel.Proofs.Reshape3j", "SymmModel.Props.C07c", "SymmModel.Props.C07All2", "SymmModel.Proofs.Reshape4a", "SymmModel.Proofs.Reshape4b", "SymmModel.Proofs.Reshape4c", "SymmModel.Proofs.Reshape4d", "SymmModel.Proofs.Reshape4e", "SymmModel.Proofs.Reshape4f", "SymmModel.Proofs.Reshape4g", "SymmModel.Props.C07d", "SymmModel.Props.C07All3", "SymmModel.Proofs.Reshape5a", "SymmModel.Proofs.Reshape5b", "SymmModel.Proofs.Reshape5c", "SymmModel.Proofs.Reshape5d", "SymmModel.Proofs.Reshape5e", "SymmModel.Proofs.Reshape5f", "SymmModel.Proofs.Reshape5g", "SymmModel.Props.C07e", "SymmModel.Props.C07All4"]
 RULE = (
     "planner: the whole stated domain on every run (exhaustive, both directions) plus a seeded "
     "random extension; arrays: random sparse abelian/fermionic arrays (<= 4 axes, block sizes "
@@ -105,7 +115,7 @@ ASSUMPTIONS = [
     "newshape entries that are still negative after find_full_reshape are outside the model (never generated)",
     "the kernel-checked planner table speaks about symbolic (dense-product) shapes; sparse arrays, whose fused sizes shrink, are covered by the per-call certificate check (monitor) and the array stream",
 ]
-PLANNED = ["exact round trip for plans with several groups or several fuse calls (one merged run proved for abelian and fermionic arrays)", "inputs with densely fused axes", "deriving the single-run plan shape from the shapes alone", "planner totality for every merge/drop target of unbounded shapes (finite table proved)", "array-level theorems for sparsely fused arrays without the certificate hypothesis"]
+PLANNED = ["plan shape from the shapes alone for merged runs containing size-one axes (runs of sizes >= 2 proved)", "callsOkB for every list of admissible runs (decidable hypothesis)", "round trip for plans with expansions", "inputs with densely fused axes", "planner totality for every merge/drop target of unbounded shapes (finite table proved)"]
 TRUSTED_EXTRA = [
     "the Python enumeration of merge/drop targets equals the Lean enumeration `targets` (compared on every run for all 3 905 shapes)",
 ]
